@@ -669,7 +669,11 @@ Definition run_c05_run (args : list sx) : sx :=
       let order := if verbose then sort_insts (instances lib) else instances lib in
       let p := plan lib (accept runp skipp) order (peers_of refc) (peers_of refs) in
       (* the in-process reference servers always answer, with an address of their own choosing *)
-      let ds := if refs then map (fun g => mkDec g true (mkAddr [] 1 (if g.(i_tls) then [1] else []))) (instances lib) else ds in
+      let ds := if refs then map (fun g => mkDec g true (mkAddr [] 1 (if g.(i_tls) then [1] else []))) (instances lib)
+                else if refc
+                then (* a listening scripted server answers with its real port and the runner's certificate *)
+                  map (fun d => mkDec d.(d_inst) d.(d_ok) (mkAddr [] 1 (if d.(d_inst).(i_tls) then [1] else []))) ds
+                else ds in
       let '(s, _, sn) := scripted maxs missing ds p (if lockstep then script else []) in
       let tr := s.(trace) in
       ret (L [ sx_bool (negb (terminal s));
